@@ -135,7 +135,7 @@ theorem struct_named_roundtrip (dflt : FieldInfo → Val) (fs : List FieldInfo) 
     (hw : (structVal true fs vs).wf = true) :
     (decodeAll (encode (structVal true fs vs))).bind (deStruct dflt fs) = some (restore dflt fs vs) := by
   rw [decodeAll_encode _ hw]
-  simp [structVal, deStruct, deFieldsMap_serNamed dflt fs vs hl hn]
+  simp [structVal, deStruct_serNamed dflt fs vs hl hn]
 
 private def exFs : List FieldInfo := [⟨"index", false, ""⟩, ⟨"core_distance", true, "skip"⟩, ⟨"reachability_distance", false, ""⟩]
 private def exVs : List Val := [.uint 3, .f64 0x4000000000000000, .nil]
@@ -196,6 +196,90 @@ theorem struct_shape (named : Bool) (fs : List FieldInfo) (vs : List Val) (hl : 
 
 example : bodyMatches true exFs (structVal true exFs exVs) = true := struct_shape true exFs exVs rfl
 
+/-- bridging lemma to the check the driver's `wire` op applies (`shapeMatches` on the table entry): for every
+table entry of kind `struct` the model's own serialiser output passes it -/
+theorem struct_shape_matches (named : Bool) (t : TypeInfo) (vs : List Val) (hk : t.kind = "struct")
+    (hl : t.fields.length = vs.length) : shapeMatches named t (structVal named t.fields vs) = true := by
+  have h : shapeMatches named t (structVal named t.fields vs) =
+      bodyMatches named t.fields (structVal named t.fields vs) := by
+    unfold shapeMatches; rw [hk]; rfl
+  rw [h]; exact struct_shape named t.fields vs hl
+
+example : shapeMatches false ⟨"x::Sample", "struct", "", exFs, []⟩ (structVal false exFs exVs) = true :=
+  struct_shape_matches false _ exVs rfl rfl
+
+/-! ### what derive(Deserialize) does with messages the serialiser did not write
+
+The driver's `destruct` op runs `deStruct` on real `rmp-serde` bytes whose top-level entries the harness
+reordered, duplicated, extended or truncated, against the real `rmp_serde::from_slice`. -/
+
+/-- **entry order is irrelevant in the named layout**: two messages with distinct keys and the same set of
+entries deserialise to the same fields (or fail alike) -/
+theorem named_layout_order_irrelevant (dflt : FieldInfo → Val) (fs : List FieldInfo) (kvs kvs' : List (Val × Val))
+    (h : nodupStrings (keysOf kvs) = true) (h' : nodupStrings (keysOf kvs') = true)
+    (hm : ∀ p, p ∈ kvs' ↔ p ∈ kvs) :
+    deStruct dflt fs (.map kvs') = deStruct dflt fs (.map kvs) :=
+  deStruct_map_order_irrelevant dflt fs kvs kvs' h h' hm
+
+example : deStruct (fun _ => .nil) exFs (.map [(strVal "reachability_distance", .nil), (strVal "index", .uint 3)]) =
+    deStruct (fun _ => .nil) exFs (.map [(strVal "index", .uint 3), (strVal "reachability_distance", .nil)]) :=
+  named_layout_order_irrelevant _ exFs _ _ (by decide +kernel) (by decide +kernel) (by
+    intro p; simp only [List.mem_cons, List.not_mem_nil, or_false]; exact or_comm)
+
+/-- hence the named round trip survives **any reordering** of the entries the serialiser wrote -/
+theorem struct_named_roundtrip_any_order (dflt : FieldInfo → Val) (fs : List FieldInfo) (vs : List Val)
+    (kvs' : List (Val × Val)) (hl : fs.length = vs.length) (hn : nodupStrings (liveKeys fs) = true)
+    (h' : nodupStrings (keysOf kvs') = true) (hm : ∀ p, p ∈ kvs' ↔ p ∈ serNamed fs vs) :
+    deStruct dflt fs (.map kvs') = some (restore dflt fs vs) := by
+  rw [named_layout_order_irrelevant dflt fs (serNamed fs vs) kvs' (by
+    have := serNamed_keys fs vs hl; simp only [keysOf]; rw [this]; exact hn) h' hm]
+  exact deStruct_serNamed dflt fs vs hl hn
+
+example : deStruct (fun _ => .nil) exFs (.map (serNamed exFs exVs).reverse) = some [.uint 3, .nil, .nil] :=
+  struct_named_roundtrip_any_order _ exFs exVs _ rfl (by decide +kernel) (by decide +kernel) (by
+    intro p; exact List.mem_reverse)
+
+/-- **an entry under a key that names no live field is ignored** (unknown field, name of a skipped field) -/
+theorem unknown_key_ignored (dflt : FieldInfo → Val) (fs : List FieldInfo) (kvs : List (Val × Val))
+    (k x : Val) (hk : (liveKeys fs).contains (render k) = false) :
+    deStruct dflt fs (.map (kvs ++ [(k, x)])) = deStruct dflt fs (.map kvs) :=
+  deStruct_unknown_key_ignored dflt fs kvs k x hk
+
+example : deStruct (fun _ => .nil) exFs (.map (serNamed exFs exVs ++ [(strVal "core_distance", .uint 9)])) =
+    deStruct (fun _ => .nil) exFs (.map (serNamed exFs exVs)) :=
+  unknown_key_ignored _ exFs _ _ _ (by decide +kernel)
+
+/-- **a live field's key occurring twice is rejected** ("duplicate field") -/
+theorem duplicate_key_rejected (dflt : FieldInfo → Val) (fs : List FieldInfo) (kvs : List (Val × Val))
+    (k x : Val) (hk : (liveKeys fs).contains (render k) = true) (hd : render k ∈ keysOf kvs) :
+    deStruct dflt fs (.map (kvs ++ [(k, x)])) = none :=
+  deStruct_duplicate_key_rejected dflt fs kvs k x hk hd
+
+example : deStruct (fun _ => .nil) exFs (.map (serNamed exFs exVs ++ [(strVal "index", .uint 9)])) = none :=
+  duplicate_key_rejected _ exFs _ _ _ (by decide +kernel) (by decide +kernel)
+
+/-- **an absent required field makes the struct unreadable** ("missing field") … -/
+theorem missing_required_field_fails (dflt : FieldInfo → Val) (fs : List FieldInfo) (kvs : List (Val × Val))
+    (f : FieldInfo) (hf : f ∈ fs) (hs : f.skip = false) (ho : isOptional f = false)
+    (hl : lookupKey (keyOf f) kvs = none) (hd : nodupStrings (knownKeys fs kvs) = true) :
+    deStruct dflt fs (.map kvs) = none := by
+  simp only [deStruct, hd, if_true]
+  exact deFieldsMap_missing_required dflt kvs f hs ho hl fs hf
+
+example : deStruct (fun _ => .nil) exFs (.map [(strVal "index", .uint 3)]) = none :=
+  missing_required_field_fails _ exFs _ ⟨"reachability_distance", false, ""⟩ (by simp [exFs]) rfl (by decide +kernel)
+    (by decide +kernel) (by decide +kernel)
+
+/-- … while an absent `Option` field reads as `None` (serde's `missing_field` rule; the translator marks
+`Option<…>` fields with the pseudo-flag `option`) -/
+theorem missing_optional_field_reads_none (dflt : FieldInfo → Val) (kvs : List (Val × Val)) (f : FieldInfo)
+    (hs : f.skip = false) (ho : isOptional f = true) (hl : lookupKey (keyOf f) kvs = none) :
+    fieldFromMap dflt kvs f = some .nil :=
+  fieldFromMap_missing_optional dflt kvs f hs ho hl
+
+example : (deStruct (fun _ => .nil) [⟨"index", false, ""⟩, ⟨"max_depth", false, "option"⟩]
+    (.map [(strVal "index", .uint 3)])).map (fun vs => vs.map render) = some ["u3", "N"] := by decide +kernel
+
 /-- **index-based enum tags round-trip when no skipped variant precedes a live one**: the declaration
 index written by derive(Serialize) selects the same variant among the non-skipped ones -/
 theorem variant_index_roundtrip (name : String) (ws : List VariantInfo) (k : Nat)
@@ -220,6 +304,17 @@ theorem variant_index_shifted_by_leading_skip (name : String) (w : VariantInfo) 
   rw [hsh.1]
   simp only [Option.bind_some, hsh.2]
   exact deVariant_beyond_ne name ws k (k + 1) hd h (Nat.lt_succ_self k)
+
+/-- **a skipped variant cannot be written at all**: derive(Serialize) refuses it ("the enum variant … cannot be
+serialized"), wherever it is declared.  `linfa::Error::NdShape` is such a value of a serde type (open finding
+`C19-error-ndshape-unserialisable`; the driver's `varidx` op answers `ser=-` through this function and the harness
+replays `Error::NdShape(..)` on bincode, rmp-serde and JSON). -/
+theorem skipped_variant_not_serialisable (w : VariantInfo) (pre post : List VariantInfo) (hs : w.skip = true)
+    (hn : ∀ u ∈ pre, (u.name == w.name) = false) : serIndex w.name (pre ++ w :: post) = none :=
+  serIndex_skipped w post hs pre hn
+
+example : serIndex "NdShape" errNow = none :=
+  skipped_variant_not_serialisable ⟨"NdShape", "newtype", true, []⟩ (errNow.take 3) [] rfl (by decide)
 
 example : (serIndex "NotEnoughSamples" errOld).bind (deVariant errOld) = some "MismatchedShapes" := by decide
 example : (serIndex "MismatchedShapes" (errOld.drop 1)).bind (deVariant (errOld.drop 1)) ≠ some "MismatchedShapes" :=
